@@ -2,7 +2,7 @@
    Statements only; proofs in server/Proofs.v.  Quantification: every configuration (plain or
    graceful server; h1 / h2 / auto) and every list of environment events of any length: connects
    of any client kind, cancelled connects, listener loss, make-service failure, signal, settles,
-   requests advanced stage by stage, disconnects, garbage, handler errors. *)
+   requests advanced stage by stage, disconnects, garbage, handler errors — in any order. *)
 From HD Require Import common.Base server.Model server.Spec server.Proofs.
 
 (* the model's trace satisfies the executable specification, for all event lists *)
@@ -10,3 +10,51 @@ Theorem c09_monitor : forall g evs, mon_C09 (trace (run g evs)) = true.
 Proof. exact model_mon_C09. Qed.
 Check c09_monitor : forall g evs, mon_C09 (trace (run g evs)) = true.
 Print Assumptions c09_monitor.
+
+(* whatever per-connection faults are interleaved: without a signal, loss of the listener or a
+   make-service failure the serving future is still pending *)
+Theorem c09_survives : forall g evs,
+  no_listener_loss evs -> no_make_failure evs -> no_signal evs ->
+  serving_result (run g evs) = StillServing.
+Proof. exact c09_survives_events. Qed.
+Check c09_survives : forall g evs,
+  ~ In ELost evs -> ~ In EMakeFail evs -> ~ In ESignal evs -> serving_result (run g evs) = StillServing.
+Print Assumptions c09_survives.
+
+(* ... and at every quiescent point (OQuiet), reading the counters of the trace so far: the future
+   has not completed; every client that asked to connect has been accepted and its driver spawned;
+   every connection on which no fault was injected, and for whose requests the environment has
+   done everything it has to do, has received every response (settled09, server/Proofs.v) *)
+Theorem c09_others_served : forall g evs a b c,
+  no_listener_loss evs -> no_make_failure evs -> no_signal evs ->
+  trace (run g evs) = a ++ OQuiet :: b ->
+  k_server (tracks ms0 a) = None
+  /\ (c < k_n (tracks ms0 a) -> settled09 (k_conns (tracks ms0 a) c)).
+Proof. exact c09_others_served_events. Qed.
+Check c09_others_served : forall g evs a b c,
+  no_listener_loss evs -> no_make_failure evs -> no_signal evs ->
+  trace (run g evs) = a ++ OQuiet :: b ->
+  k_server (tracks ms0 a) = None
+  /\ (c < k_n (tracks ms0 a) ->
+      let y := k_conns (tracks ms0 a) c in
+      (m_connected y = true -> m_accepted y = true /\ m_spawned y = true)
+      /\ (m_fault y = false -> m_begun y = m_envdone y -> m_resp y = m_begun y)).
+Print Assumptions c09_others_served.
+
+(* non-vacuity: a cancelled connect (D2), garbage on connection 0, a handler error on connection 1,
+   then a fresh client 2 is accepted and served; the future is still pending *)
+Example c09_example :
+  let evs := [ECancelled; ESettle; EConnect KRaw; EGarbage 0; EConnect KH1; EReq 1; EStep 1;
+              EHandlerErr 1; EConnect KH1; EReq 2; EStep 2; EStep 2; EStep 2] in
+  trace (run (mkCfg false PH1) evs)
+  = [OCancel; OQuiet; OConnect 0; OAccept 0; OSpawn 0; OFault 0; ODone 0; OQuiet;
+     OConnect 1; OAccept 1; OSpawn 1; OBegin 1; OHandler 1; OQuiet; OQuiet; OFault 1; ODone 1; OQuiet;
+     OConnect 2; OAccept 2; OSpawn 2; OBegin 2; OHandler 2; OQuiet; OQuiet; OQuiet;
+     OEnvDone 2; OResp 2; OQuiet]
+  /\ serving_result (run (mkCfg false PH1) evs) = StillServing
+  /\ no_listener_loss evs /\ no_make_failure evs /\ no_signal evs.
+Proof.
+  cbv zeta. split; [vm_compute; reflexivity |]. split; [vm_compute; reflexivity |].
+  unfold no_listener_loss, no_make_failure, no_signal. cbn.
+  repeat split; intros H; repeat (destruct H as [H | H]; [discriminate |]); contradiction.
+Qed.
